@@ -31,6 +31,7 @@ typedef struct {
     int nfields;
     const FieldBinding* fields;
     const Fact* facts;
+    int (*lget_raw)(void*, long, void*);   /* deprecated getter with the caller's own result pointer (may point into the PDU) */
 } ViewBinding;
 extern const ViewBinding* const all_views[];
 #endif
